@@ -137,9 +137,11 @@ class Scheduler:
     def emit(self, ev: Dict[str, Any]) -> None:
         """Append a spec-level event (called by the running actor, or by the scheduler for env steps)."""
         a = self.me()
+        if a is None and "a" not in ev:
+            return                      # setup code / helper threads: not part of the scheduled execution
         self.seq += 1
-        e = dict(ev)
-        e.setdefault("a", a.name if a else (self.current.name if self.current else "env"))
+        e = {k: v for k, v in ev.items() if v is not None}
+        e.setdefault("a", a.name if a else "env")
         e["n"] = self.seq
         e.setdefault("t", self.clock.rel(self.clock.peek_ms()))
         self.trace.append(e)
@@ -147,8 +149,9 @@ class Scheduler:
     def reserve(self, ev: Dict[str, Any]) -> Dict[str, Any]:
         """Reserve the event's position now (at the linearisation point); fields may be filled in
         later by the same actor before it reaches its next gate."""
+        n = len(self.trace)
         self.emit(ev)
-        return self.trace[-1]
+        return self.trace[-1] if len(self.trace) > n else dict(ev)
 
     # ---- scheduler side --------------------------------------------------------------------
     def _blocked(self, a: Actor) -> bool:
